@@ -763,7 +763,7 @@ const PADS: [usize; 3] = [0, 1, 3];
 
 /// Full product of all dimensions.
 fn sub_traversals(tier: Tier) -> Sub {
-    let maxn = tier.pick(5, 6);
+    let maxn = tier.pick(4, 6);
     let cs = combos(1, maxn);
     let len = cs.len() as u64 * 3 * SIB_MODES.len() as u64 * CODE_SCHEMES.len() as u64 * SHAPE_CFGS.len() as u64 * 2;
     let bound = format!(
@@ -788,11 +788,12 @@ fn sub_traversals(tier: Tier) -> Sub {
 /// scheme, encoding and unit count vary together (6 diagonal settings), since
 /// they do not interact with the shape in the code under test.
 fn sub_traversals_large(tier: Tier) -> Sub {
-    let n = tier.pick(6, 7);
-    let cs = combos(n, n);
+    let (lo, n) = tier.pick((5, 6), (7, 7));
+    let cs = combos(lo, n);
     let len = cs.len() as u64 * 3 * SIB_MODES.len() as u64 * 6;
     let bound = format!(
-        "every ordered tree with exactly {} nodes x every leaf-flag subset ({} combinations) x padding {{0,1,3}} x {} sibling modes x 6 diagonal settings (code scheme k, encoding/unit type k, 1 or 2 units); same traversal styles from every stream element offset",
+        "every ordered tree with {}..={} nodes x every leaf-flag subset ({} combinations) x padding {{0,1,3}} x {} sibling modes x 6 diagonal settings (code scheme k, encoding/unit type k, 1 or 2 units); same traversal styles from every stream element offset",
+        lo,
         n,
         cs.len(),
         SIB_MODES.len()
